@@ -256,10 +256,103 @@ pub fn loss_units(depth: usize, for_c03: bool) -> Vec<Unit> {
     units
 }
 
+// ------------------------------------------------------------------------------------------------
+// The whole path on a real sender: frame log -> loss detection -> loss history -> equation
+// ------------------------------------------------------------------------------------------------
+
+/// A real sending `HalfConnection` with an endless backlog; the harness plays the receiver: every frame that is not lost is acknowledged
+/// `rtt_steps` steps later (one group per frame, window bases following). Frames are lost in bursts: of every `period` consecutive data
+/// frames the first `burst` are lost, from the 60th frame on. The loss history that RFC 5348 5.2-5.4 prescribes is computed from the real
+/// send times of the lost and delivered frames (a loss belongs to the running loss event unless its frame was sent at least one RTT
+/// estimate after the frame that started the event); once 12 loss events are complete, the allowed rate must not exceed the throughput
+/// equation for the current RTT estimate and that loss event rate - computed with every interval three frames longer, because the implementation
+/// counts a lost frame when it detects the loss - by more than 25 % (merging loss events moves the rate by 40 % and more).
+fn link_loss_case(burst: usize, period: usize, dt: u64, rtt_steps: usize) -> (Option<Violation>, u64, Option<String>) {
+    use uflow::verif::frame::{AckFrame, AckGroup, Frame};
+    use uflow::verif::Serialize;
+    use crate::lw::{LwCfg, FS};
+    let r = guarded(|| {
+        set_time_ms(0); seed(14); set_fuel(5_000_000);
+        let cfg = LwCfg { pwin: 4096, fwin: 4096, bw: [2_000_000, 2_000_000], ..LwCfg::small() };
+        let mut hc = HalfConnection::new(cfg.half(0));
+        let mut now = 0u64; let mut idx = 0usize;
+        // (send time, lost) of every data frame in send order; acknowledgements in flight: (due step, frame id, nonce, last packet id + 1)
+        let mut sent: Vec<(u64, bool)> = Vec::new();
+        let mut inflight: std::collections::VecDeque<(usize, u32, bool, u32)> = Default::default();
+        let mut pbase = cfg.pbase[0]; let mut fbase = cfg.fbase[0];
+        let mut verdict: Option<Violation> = None; let mut h = 0xcbf29ce484222325u64;
+        let mut queued = 0usize;
+        for step in 0..6000usize {
+            while hc.send_buffer_size() < 40_000 { hc.send(crate::lw::payload(0, 0, queued as u32, 1000), 0, uflow::SendMode::Unreliable); queued += 1; }
+            let mut fs = FS(vec![]); hc.flush(&mut fs);
+            for bytes in fs.0.iter() {
+                if let Some(Frame::DataFrame(df)) = Frame::read(bytes) {
+                    let lost = idx >= 60 && (idx - 60) % period < burst;
+                    sent.push((now, lost)); idx += 1;
+                    if !lost { inflight.push_back((step + rtt_steps, df.sequence_id, df.nonce, df.datagrams.last().map_or(pbase, |d| (d.sequence_id + 1) & 0xFFFFF))); }
+                }
+            }
+            while inflight.front().map_or(false, |x| x.0 <= step) {
+                let (_, id, nonce, pnext) = inflight.pop_front().unwrap();
+                fbase = id.wrapping_add(1); pbase = pnext;
+                hc.handle_ack_frame(AckFrame { frame_window_base_id: fbase, packet_window_base_id: pbase, frame_acks: vec![AckGroup { base_id: id, bitfield: 1, nonce }] });
+            }
+            now += dt; set_time_ms(now);
+            hc.step();
+            // reference loss history over the frames whose fate the sender can know by now (sent at least rtt + 4 frames ago)
+            let rtt_ms = match hc.rtt_s() { Some(r) => r * 1000.0, None => continue };
+            let known = sent.len().saturating_sub(rtt_steps * 4 + 8);
+            let mut ivs: Vec<u64> = Vec::new(); let mut ev_start: Option<u64> = None; let mut events = 0usize;
+            for &(t, lost) in sent[..known].iter() {
+                if lost { if ev_start.map_or(true, |s| t as f64 >= s as f64 + rtt_ms) { ivs.insert(0, 1); ivs.truncate(9); ev_start = Some(t); events += 1; } else { ivs[0] += 1; } }
+                else if !ivs.is_empty() { ivs[0] += 1; }
+            }
+            if events < 12 || ivs.len() < 9 { continue; }
+            const W: [f64; 8] = [1.0, 1.0, 1.0, 1.0, 0.8, 0.6, 0.4, 0.2];
+            let n = ivs.len() - 1;
+            // the implementation counts a lost frame when it detects the loss (three later acknowledgements, or by age): every interval may be
+            // up to three frames longer there than in send order; the bound is computed with all intervals lengthened by three
+            let tot0: f64 = (0..n).map(|i| (ivs[i] + 3) as f64 * W[i]).sum(); let tot1: f64 = (1..=n).map(|i| (ivs[i] + 3) as f64 * W[i - 1]).sum(); let w: f64 = W[..n].iter().sum();
+            let p_ref = w / tot0.max(tot1);
+            let x = hc.verif_probe().send_rate;
+            let bound = x_bps(rtt_ms / 1000.0, p_ref).max(FLOOR);
+            h = fnv(h, (x / 64.0) as u64);
+            if x > 1.25 * bound + 1.0 && verdict.is_none() {
+                verdict = Some(viol("C14.equation", "C14.equation:link:exceeded".into(), format!("real sender, frames lost in bursts of {} out of every {} (steps of {} ms, acknowledgements {} steps later): at t={} ms, after {} loss events, the allowed rate is {:.0} B/s but the throughput equation for the RTT estimate {:.1} ms and the loss event rate {:.5} of RFC 5348 5.2-5.4 (intervals {:?}) gives {:.0} B/s", burst, period, dt, rtt_steps, now, events, x, rtt_ms, p_ref, ivs, bound)));
+            }
+        }
+        set_fuel(u64::MAX);
+        (verdict, h ^ sent.len() as u64)
+    });
+    set_fuel(u64::MAX);
+    match r { Ok((v, h)) => (v, h, None), Err(p) => (None, 0xDEAD, Some(p)) }
+}
+
+pub fn link_loss_units(quick: bool) -> Vec<Unit> {
+    let mut units: Vec<Unit> = Vec::new();
+    let bursts: &[usize] = if quick { &[1, 2, 4, 8] } else { &[1, 2, 3, 4, 6, 8, 12, 16] };
+    for &burst in bursts {
+        for (dt, rtt_steps) in [(10u64, 5usize), (10, 10), (20, 3), (5, 12)] {
+            units.push(Box::new(move |acc: &mut Acc| {
+                for period in [burst + 6, burst + 11, burst + 20, burst + 37, 2 * burst + 50] {
+                    let (v, h, p) = link_loss_case(burst, period, dt, rtt_steps);
+                    let case = format!("case:linkloss:{}:{}:{}:{}", burst, period, dt, rtt_steps);
+                    acc.evals += 1; acc.transitions += 6000; acc.outcomes.insert(h);
+                    if let Some(p) = p { acc.panics += 1; acc.violation(case.clone(), viol("C14.aborted-by-panic", format!("C14.aborted-by-panic:{}", p.rsplit(" @ ").next().unwrap_or("")), format!("the sender panicked: {}", p))); }
+                    if let Some(v) = v { acc.violation(case, v); }
+                }
+                if burst == 2 && dt == 10 && rtt_steps == 5 { acc.sample(format!("real sender with an endless backlog, {} of every n frames lost (n = {:?}), steps of {} ms, acknowledgements {} steps later, 6000 steps", burst, [burst + 6, burst + 11, burst + 20, burst + 37, 2 * burst + 50], dt, rtt_steps)); }
+            }));
+        }
+    }
+    units
+}
+
 pub fn build(quick: bool) -> PropRun {
     let plans: Vec<(bool, usize)> = if quick { vec![(false, 5), (true, 3)] } else { vec![(false, 6), (true, 4)] };
     let mut all_units = units(&plans, false);
     all_units.extend(loss_units(if quick { 7 } else { 9 }, false));
+    all_units.extend(link_loss_units(quick));
     // on the link: the shared pool of the link world with the RTT sample clause
     let scs = crate::props::from_pool(quick, "C14", crate::lwprops::O_C14RTT);
     PropRun { level: "model_checking", scenarios: scs, units: all_units, replay_case: Some(replay_case), summary: Summary {
@@ -271,6 +364,7 @@ pub fn build(quick: bool) -> PropRun {
 }
 
 pub fn replay_case(case: &str) -> Vec<Violation> {
+    if let Some(f) = case.strip_prefix("case:linkloss:") { let v: Vec<u64> = f.split(':').filter_map(|x| x.parse().ok()).collect(); if v.len() == 4 { let (x, _, p) = link_loss_case(v[0] as usize, v[1] as usize, v[2], v[3] as usize); if let Some(p) = p { println!("PANIC inside uflow: {}", p); } return x.into_iter().collect(); } }
     if let Some(seq) = loss_decode(case) { let (v, _, p) = run_loss_seq(&seq); println!("loss history {:?}: reference {:?}", seq, loss_ref(&seq)); if let Some(p) = p { println!("PANIC inside uflow: {}", p); } return v; }
     match decode(case) {
         Some((ceil, seq)) => { let (v, _, p) = run_seq(ceil, &seq, false); println!("ceiling {} events {:?}", ceil, seq); if let Some(p) = p { println!("PANIC inside uflow: {}", p); } v }
